@@ -2,7 +2,7 @@
 EXTENDS Bounded, TLC, Json
 CONSTANTS Deep, Side
 VARIABLE c
-GInit == c \in {f \in Family(Deep) : f.side = Side} /\ Init
+GInit == c \in {f \in Family(Deep) : f.side = Side} \cup (IF Side = "p21" THEN {[table |-> "degenerate:" \o d, side |-> "p21", n |-> 0] : d \in Degenerate} ELSE {}) /\ Init
 GNext == UNCHANGED <<c, len>>
 Emit == PrintT("@@CASE " \o ToJson(c))
 ====
